@@ -266,6 +266,40 @@ def h_program(e, cfg):
     e.oblige_eq("program:final-param", c.bias, cur, program=" ".join(prog))
 
 
+def h_updatesome(e, cfg):
+    """updatesome(*names): exactly the named parameters are updated once (and, with the default clear, their parts dropped);
+    the others keep their pending parts; a following update() applies only what is still pending."""
+    c = conn()
+    c.updater = c.defaultupdater()
+    names = list(cfg["names"])
+    e.tag(call="updatesome(" + ",".join(names) + f", clear={cfg['clear']})")
+    cur, pend = {}, {}
+    for nm, shape in (("weight", (2, 2)), ("bias", (2,))):
+        v0 = e.sym(shape, torch.float32, "V" + nm, lo=-3, hi=3)
+        setattr(c, nm, v0)
+        cur[nm] = e.read(v0).copy()
+        p, n = e.sym(shape, torch.float32, "p" + nm, lo=0, hi=2), e.sym(shape, torch.float32, "n" + nm, lo=0, hi=2)
+        setattr(c.updater, nm, (p, n))
+        pend[nm] = np.frompyfunc(T.sub, 2, 1)(e.read(p), e.read(n))
+    c.updatesome(*names, clear=cfg["clear"])
+    for nm in ("weight", "bias"):
+        if nm in names:
+            cur[nm] = np.frompyfunc(T.add, 2, 1)(cur[nm], pend[nm])
+            if cfg["clear"]:
+                pend[nm] = None
+        e.oblige_eq("updatesome:named-updated-once-others-untouched", getattr(c, nm), cur[nm].copy(), split=True, param=nm)
+        acc = getattr(c.updater, nm)
+        e.oblige("updatesome:pending-parts", (acc.pos is None and acc.neg is None) == (pend[nm] is None), param=nm, pending=str(pend[nm] is not None))
+    c.update()        # applies what is still pending, once
+    for nm in ("weight", "bias"):
+        if pend[nm] is not None:
+            cur[nm] = np.frompyfunc(T.add, 2, 1)(cur[nm], pend[nm])
+        e.oblige_eq("updatesome:following-update-applies-only-pending", getattr(c, nm), cur[nm].copy(), split=True, param=nm)
+    c.update()
+    for nm in ("weight", "bias"):
+        e.oblige_eq("updatesome:second-application-changes-nothing", getattr(c, nm), cur[nm].copy(), split=True, param=nm)
+
+
 def h_trainer_update(e, cfg):
     """CellTrainer.update(): every updater of the registered cells is applied exactly once
     (also when two cells share one connection), with parts contributed by two sources."""
@@ -335,12 +369,14 @@ def checks(tier):
     pr = [dict(len=(5 if th else 4), first=i) for i in range(8)]
     return [Check("apply", h_apply, ap, timeout_s=600), Check("invariant", h_invariant, inv, opts={"query_timeout_ms": 120000}, timeout_s=900),
             Check("programs", h_program, pr, opts={"max_paths": 100000}, timeout_s=3000),
+            Check("updatesome", h_updatesome, [dict(names=nm, clear=cl) for nm in (("weight",), ("bias",), ("weight", "bias"), ("bias", "weight")) for cl in (True, False)], timeout_s=600),
             Check("trainer_update", h_trainer_update, [dict(layer=l, sources=n) for l in ("serial", "shared-neuron", "shared-connection") for n in (1, 2)], timeout_s=600)]
 
 
 BOUNDS = {
     "quick": {"parameter": "2x2 symbolic weight", "parts": "0-3 potentiating x 0-3 depressing, interleaved", "reductions": ["default", "sum", "mean", "amax", "custom at construction"],
               "bounding": "none / upper / lower / both halves / full x {power 1-3, scaled power 1-2, multiplicative, scaled multiplicative, sharp}; limits (-1, 2)",
+              "updatesome": "updatesome() with one or two parameter names in both orders, clear on/off, followed by two update() calls",
               "trainer_update": "CellTrainer.update() on Serial / Biclique with two cells sharing the neuron group / sharing the connection; 1-2 contributions per updater",
               "programs": "all 4-operation programs over {pos, neg, both, read, update, update(clear=False), updatesome, clear}"},
     "thorough": {"orders": "forward / reversed / interleaved", "programs": "all 5-operation programs"},
